@@ -216,7 +216,7 @@ func c14Apply(v any, t any) c14R {
 		return c14R{val: out}
 	case "flags":
 		if argc != 0 {
-			return c14R{v: ref.Unspec, why: "flags with arguments"}
+			return bad // "malformed arguments are errors": flags takes none
 		}
 		r := c14ToList(v, "=")
 		if r.v != ref.Accept {
